@@ -151,7 +151,7 @@ HasPegConv(e) == \E i \in 1..Len(e.txs) : e.txs[i].kind = "conv" /\ e.txs[i].con
 
 \* ------------------------------------------------------------------ batch application (C03, C13)
 \* Pass 1 of applyTransactionBatch, transaction by transaction: funds then admission rules.
-\* Returns 0 (fine) or the reject code, or 9 for "unconvertible" (Convert error).
+\* Returns 0 (fine) or the reject code, or -9 for "unconvertible" (Convert error).
 RECURSIVE Pass1(_, _, _, _, _, _)
 Pass1(bal, e, h, rates, avgs, i) ==
   IF i > Len(e.txs) THEN 0
@@ -161,7 +161,7 @@ Pass1(bal, e, h, rates, avgs, i) ==
               IF NIsZero(Rate(rates, tx.t)) \/ NIsZero(Rate(rates, tx.conv)) THEN -4
               ELSE IF h >= Act("OneWaypFCT") /\ tx.conv = "pFCT" THEN -3
               ELSE IF h >= Act("OneWaySmall") /\ tx.conv \in SmallCaps THEN -5
-              ELSE IF ~Convert(h, tx.amt, Rate(rates, tx.t), Rate(avgs, tx.t), Rate(rates, tx.conv), Rate(avgs, tx.conv)).ok THEN 9
+              ELSE IF ~Convert(h, tx.amt, Rate(rates, tx.t), Rate(avgs, tx.t), Rate(rates, tx.conv), Rate(avgs, tx.conv)).ok THEN -9
               ELSE Pass1(bal, e, h, rates, avgs, i + 1)
             ELSE Pass1(bal, e, h, rates, avgs, i + 1)
 
@@ -184,7 +184,7 @@ InUniverse(e) == \A i \in 1..Len(e.txs) : /\ e.txs[i].a \in Addrs /\ e.txs[i].t 
                                           /\ \A j \in 1..Len(e.txs[i].to) : e.txs[i].to[j].a \in Addrs
 
 \* Verdict for executing batch e against balances bal at height h:
-\*   h (executed), or -1 -3 -4 -5, or 9 (unconvertible amount)
+\*   h (executed), or -1 -3 -4 -5, or -9 (unconvertible amount)
 BatchVerdict(bal, e, h, rates, avgs) ==
   LET p1 == Pass1(bal, e, h, rates, avgs, 1) IN
   IF p1 # 0 THEN p1
